@@ -48,11 +48,14 @@ class NfdRegister(PrefixRegisterer):
                     break
                 await aio.sleep(0.001)
             try:
-                _, reply, _ = await self.app.express(
+                command = self.app.express(
                     name=nfd_mgmt.make_command_v2('rib', 'register', self.app.face, name=name),
                     app_param=b'', signer=sec.DigestSha256Signer(for_interest=True),
                     validator=pass_all,
                     lifetime=1000)
+                # The signer has read the clock again: remember a time not before its SignatureTime
+                self._last_command_timestamp = max(self._last_command_timestamp, utils.timestamp())
+                _, reply, _ = await command
                 try:
                     ret = nfd_mgmt.parse_response(reply)
                 except (enc.DecodeError, ValueError, IndexError, TypeError, struct.error):
@@ -82,10 +85,13 @@ class NfdRegister(PrefixRegisterer):
                     break
                 await aio.sleep(0.001)
             try:
-                _, reply, _ = await self.app.express(
+                command = self.app.express(
                     nfd_mgmt.make_command_v2('rib', 'unregister', self.app.face, name=name),
                     app_param=b'', signer=sec.DigestSha256Signer(for_interest=True),
                     validator=pass_all, lifetime=1000)
+                # The signer has read the clock again: remember a time not before its SignatureTime
+                self._last_command_timestamp = max(self._last_command_timestamp, utils.timestamp())
+                _, reply, _ = await command
                 try:
                     return nfd_mgmt.parse_response(reply)['status_code'] == 200
                 except (enc.DecodeError, ValueError, IndexError, TypeError, struct.error):
